@@ -339,6 +339,31 @@ def run_lists(case):
                     if dgot != dwant:
                         viol.append({"case": cid, "clause": "deny-list-exactly-p-tagged", "sig": sig,
                                      "detail": "deny list after refresh = %r, expected %r" % (sorted(x[:6] for x in dgot), sorted(x[:6] for x in dwant))})
+        # decision table of the validator itself: every combination of an enforced / unenforced allow list and deny list
+        ks = [bytes.fromhex(PK[x]) for x in ("K1", "K2", "K3")]
+        Ev = ns.base.Event
+        for allowed in ([], [0], [0, 1], [1], [0, 1, 2]):
+            for denied in ([], [0], [2], [0, 2], [1]):
+                for who in (0, 1, 2):
+                    D.ALLOWED_PUBKEYS.clear()
+                    D.ALLOWED_PUBKEYS.update(ks[i] for i in allowed)
+                    D.DENIED_PUBKEYS.clear()
+                    D.DENIED_PUBKEYS.update(ks[i] for i in denied)
+                    ev = Ev(**make_event("K%d" % (who + 1), 1, NOW, [], "x"))
+                    try:
+                        D.is_pubkey_allowed(ev, ns.Config)
+                        got = True
+                    except ns.errors.StorageError:
+                        got = False
+                    want = (not allowed or who in allowed) and who not in denied
+                    n += 1
+                    if got != want:
+                        viol.append({"case": cid, "clause": "dynamic-lists-decide-as-documented", "sig": "allow=%s|deny=%s|who=%d" % (allowed, denied, who),
+                                     "detail": "is_pubkey_allowed %s K%d with allow list %s and deny list %s (expected %s)" % (
+                                         "admits" if got else "refuses", who + 1, ["K%d" % (i + 1) for i in allowed], ["K%d" % (i + 1) for i in denied],
+                                         "admitted" if want else "refused")})
+        D.ALLOWED_PUBKEYS.clear()
+        D.DENIED_PUBKEYS.clear()
     finally:
         from nostr_relay.storage import get_storage as real_get
 
